@@ -188,3 +188,7 @@ _build1d = build
 def build(chk):
     _build1d(chk)
     build2d(chk)
+    # the pointwise contracts the relational proof instantiates: every flux body (C01 flux/*/pointwise), cons2prim (C15)
+    from . import C01, C15
+    chk.include(C01, r"^flux/.*/pointwise$", "uses:C01")
+    chk.include(C15, r"^cons2prim/(transpose|one-dimensional/x)$", "uses:C15")
